@@ -408,11 +408,22 @@ func (r *DocumentHandler) ResolveDocument(shortOrLongFormDID string,
 	}
 
 	// if document was not found on the blockchain and initial value has been provided resolve using initial value
-	if createReq != nil && strings.Contains(err.Error(), "not found") {
+	// (not when a particular version was requested: the initial state has no versions, and the error for an unknown
+	// version quotes the caller's value, which may itself contain the words "not found")
+	if createReq != nil && strings.Contains(err.Error(), "not found") && !versionRequested(opts) {
 		return r.resolveRequestWithInitialState(uniquePortion, shortOrLongFormDID, createReq, pv)
 	}
 
 	return nil, err
+}
+
+func versionRequested(opts []document.ResolutionOption) bool {
+	resOpts, err := document.GetResolutionOptions(opts...)
+	if err != nil {
+		return false
+	}
+
+	return resOpts.VersionID != "" || resOpts.VersionTime != ""
 }
 
 func (r *DocumentHandler) getNamespace(shortOrLongFormDID string) (string, error) {
